@@ -106,6 +106,9 @@ def values(kind, role):
         return PTS
     if kind == "Point":
         return [{"0": p} for p in PTS]
+    from ..report import thorough
+    if thorough():
+        role = "b" if kind != "Triangle" else role
     if kind == "Line":
         pts = PTS3 if role == "a" else PTS
         out = [{"start": s, "end": e} for s, e in itertools.product(pts, repeat=2)]
